@@ -209,97 +209,100 @@ def run(ctx):
         names = list(R.REF)
         # 1. exhaustive grid: pairs through a broadcast call, a 1-D call per row, scalar calls on the diagonal
         for i, rnd in ctx.cases("grid", len(names)):
-            name = names[i]
-            norm = getattr(fl, name)()
-            norm.compute(grid[:, None], grid[None, :])
-            for a in grid[:: max(1, len(grid) // 8)]:
-                norm.compute(float(a), grid)
-                norm.compute(grid, float(a))
-            for a in grid:
-                norm.compute(float(a), float(1.0 - a))
-                norm.compute(np.float64(a), np.array(a))
-            norm.compute([0.25, 0.5, 1.0], [0.75, 0.5, 0.0])  # plain lists
-            for ia in (0, 1):
-                for ib in (0, 1):
-                    norm.compute(ia, ib)  # Python ints
-            norm.compute(grid[:1], grid[-1:])  # batches of one
-            norm.compute(grid.astype(np.float32)[:5], 0.5)
-            # associativity on the full grid of triples, through monitored calls
-            if name != "NormalizedSum":
-                A, B, C = grid[:, None, None], grid[None, :, None], grid[None, None, :]
-                left = norm.compute(norm.compute(A, B), C)
-                right = norm.compute(A, norm.compute(B, C))
-                tol = 0.0 if name in R.EXACT else 1e-12
-                bad = np.argwhere(~(np.abs(left - right) <= tol))
-                ctx.hit(f"law:{name}:associativity", left.size)
-                ctx.evaluated(left.size)
-                for ia, ib, ic in bad[:3]:
-                    ctx.violation(f"{name}: not associative", {"norm": name, "a": grid[ia], "b": grid[ib], "c": grid[ic]}, float(right[ia, ib, ic]), float(left[ia, ib, ic]))
-            ctx.sample("grid", {"norm": name, "grid": f"k/2^{m}, {len(grid)}^2 pairs, {len(grid)}^3 triples", "example": {"a": 0.25, "b": 0.75, "result": float(norm.compute(0.25, 0.75))}})
+            with ctx.guarded():
+                name = names[i]
+                norm = getattr(fl, name)()
+                norm.compute(grid[:, None], grid[None, :])
+                for a in grid[:: max(1, len(grid) // 8)]:
+                    norm.compute(float(a), grid)
+                    norm.compute(grid, float(a))
+                for a in grid:
+                    norm.compute(float(a), float(1.0 - a))
+                    norm.compute(np.float64(a), np.array(a))
+                norm.compute([0.25, 0.5, 1.0], [0.75, 0.5, 0.0])  # plain lists
+                for ia in (0, 1):
+                    for ib in (0, 1):
+                        norm.compute(ia, ib)  # Python ints
+                norm.compute(grid[:1], grid[-1:])  # batches of one
+                norm.compute(grid.astype(np.float32)[:5], 0.5)
+                # associativity on the full grid of triples, through monitored calls
+                if name != "NormalizedSum":
+                    A, B, C = grid[:, None, None], grid[None, :, None], grid[None, None, :]
+                    left = norm.compute(norm.compute(A, B), C)
+                    right = norm.compute(A, norm.compute(B, C))
+                    tol = 0.0 if name in R.EXACT else 1e-12
+                    bad = np.argwhere(~(np.abs(left - right) <= tol))
+                    ctx.hit(f"law:{name}:associativity", left.size)
+                    ctx.evaluated(left.size)
+                    for ia, ib, ic in bad[:3]:
+                        ctx.violation(f"{name}: not associative", {"norm": name, "a": grid[ia], "b": grid[ib], "c": grid[ic]}, float(right[ia, ib, ic]), float(left[ia, ib, ic]))
+                ctx.sample("grid", {"norm": name, "grid": f"k/2^{m}, {len(grid)}^2 pairs, {len(grid)}^3 triples", "example": {"a": 0.25, "b": 0.75, "result": float(norm.compute(0.25, 0.75))}})
         # 2. random doubles, several operand forms
         nchunks = ctx.scale(8, 64)
         for i, rnd in ctx.cases("random", len(names) * nchunks):
-            name = names[i % len(names)]
-            fm = fl.settings.factory_manager
-            norm = getattr(fl, name)() if i % 3 else (fm.tnorm if name in R.TNORMS else fm.snorm).construct(name)
-            k = max(8, nrand // nchunks)
-            a = specials(rnd, k)
-            b = specials(rnd, k)
-            # complementary pairs: a + b == 1 up to an ulp
-            for j in range(0, k, 7):
-                b[j] = min(1.0, max(0.0, rnd.choice([1.0 - a[j], math.nextafter(1.0 - a[j], 0.0), math.nextafter(1.0 - a[j], 1.0)])))
-            form = rnd.choice(["1d", "2d", "col-row", "scalar-loop"])
-            if form == "1d":
-                norm.compute(np.array(a), np.array(b))
-                norm.compute(np.array(b), np.array(a))
-            elif form == "2d":
-                kk = (k // 4) * 4
-                norm.compute(np.array(a[:kk]).reshape(4, -1), np.array(b[:kk]).reshape(4, -1))
-                norm.compute(np.array(b[:kk]).reshape(4, -1), np.array(a[:kk]).reshape(4, -1))
-            elif form == "col-row":
-                q = min(k, 40)
-                norm.compute(np.array(a[:q])[:, None], np.array(b[:q])[None, :])
-                norm.compute(np.array(b[:q])[:, None], np.array(a[:q])[None, :])
-            else:
-                for x, y in zip(a[:200], b[:200]):
-                    norm.compute(x, y)
-                    norm.compute(y, x)
-            # monotonicity / identity / annihilator material: fixed b, sorted a
-            bb = rnd.choice(b)
-            norm.compute(np.array(sorted(a)), bb)
-            norm.compute(np.array(a), 1.0)
-            norm.compute(np.array(a), 0.0)
-            # associativity on random triples (tolerance 1e-9: real-arithmetic law, floating-point operands)
-            if name != "NormalizedSum":
-                A, B, C = np.array(a[:64]), np.array(b[:64]), np.array(specials(rnd, 64))
-                left = norm.compute(norm.compute(A, B), C)
-                right = norm.compute(A, norm.compute(B, C))
-                tol = 1e-9
-                diff = np.abs(left - right)
-                ctx.hit(f"law:{name}:associativity-random", A.size)
-                for j in np.argwhere(~(diff <= tol)).ravel()[:3]:
-                    piece_near = any(R.branch(name, u, v)[1] <= 1e-9 for u, v in [(A[j], B[j]), (B[j], C[j]), (float(norm.compute(A[j], B[j])), C[j]), (A[j], float(norm.compute(B[j], C[j])))])
-                    if piece_near:
-                        ctx.hit("ambiguous:associativity next to a branch point")
-                    else:
-                        ctx.violation(f"{name}: not associative", {"norm": name, "a": A[j], "b": B[j], "c": C[j]}, float(right[j]), float(left[j]))
-            if i < len(names):
-                ctx.sample("random", {"norm": name, "form": form, "a": a[:4], "b": b[:4]})
+            with ctx.guarded():
+                name = names[i % len(names)]
+                fm = fl.settings.factory_manager
+                norm = getattr(fl, name)() if i % 3 else (fm.tnorm if name in R.TNORMS else fm.snorm).construct(name)
+                k = max(8, nrand // nchunks)
+                a = specials(rnd, k)
+                b = specials(rnd, k)
+                # complementary pairs: a + b == 1 up to an ulp
+                for j in range(0, k, 7):
+                    b[j] = min(1.0, max(0.0, rnd.choice([1.0 - a[j], math.nextafter(1.0 - a[j], 0.0), math.nextafter(1.0 - a[j], 1.0)])))
+                form = rnd.choice(["1d", "2d", "col-row", "scalar-loop"])
+                if form == "1d":
+                    norm.compute(np.array(a), np.array(b))
+                    norm.compute(np.array(b), np.array(a))
+                elif form == "2d":
+                    kk = (k // 4) * 4
+                    norm.compute(np.array(a[:kk]).reshape(4, -1), np.array(b[:kk]).reshape(4, -1))
+                    norm.compute(np.array(b[:kk]).reshape(4, -1), np.array(a[:kk]).reshape(4, -1))
+                elif form == "col-row":
+                    q = min(k, 40)
+                    norm.compute(np.array(a[:q])[:, None], np.array(b[:q])[None, :])
+                    norm.compute(np.array(b[:q])[:, None], np.array(a[:q])[None, :])
+                else:
+                    for x, y in zip(a[:200], b[:200]):
+                        norm.compute(x, y)
+                        norm.compute(y, x)
+                # monotonicity / identity / annihilator material: fixed b, sorted a
+                bb = rnd.choice(b)
+                norm.compute(np.array(sorted(a)), bb)
+                norm.compute(np.array(a), 1.0)
+                norm.compute(np.array(a), 0.0)
+                # associativity on random triples (tolerance 1e-9: real-arithmetic law, floating-point operands)
+                if name != "NormalizedSum":
+                    A, B, C = np.array(a[:64]), np.array(b[:64]), np.array(specials(rnd, 64))
+                    left = norm.compute(norm.compute(A, B), C)
+                    right = norm.compute(A, norm.compute(B, C))
+                    tol = 1e-9
+                    diff = np.abs(left - right)
+                    ctx.hit(f"law:{name}:associativity-random", A.size)
+                    for j in np.argwhere(~(diff <= tol)).ravel()[:3]:
+                        piece_near = any(R.branch(name, u, v)[1] <= 1e-9 for u, v in [(A[j], B[j]), (B[j], C[j]), (float(norm.compute(A[j], B[j])), C[j]), (A[j], float(norm.compute(B[j], C[j])))])
+                        if piece_near:
+                            ctx.hit("ambiguous:associativity next to a branch point")
+                        else:
+                            ctx.violation(f"{name}: not associative", {"norm": name, "a": A[j], "b": B[j], "c": C[j]}, float(right[j]), float(left[j]))
+                if i < len(names):
+                    ctx.sample("random", {"norm": name, "form": form, "a": a[:4], "b": b[:4]})
         # one norm instance, the same operand arrays refilled in place between calls (stale results, aliasing)
         for i, rnd in ctx.cases("reuse", ctx.scale(32, 640)):
-            name = names[i % len(names)]
-            norm = getattr(fl, name)()
-            a, b = np.array(specials(rnd, 16)), np.array(specials(rnd, 16))
-            for _ in range(4):
-                r1 = norm.compute(a, b)
-                keep = np.array(r1, copy=True)
-                a[:] = specials(rnd, 16)
-                if rnd.random() < 0.5:
-                    b[:] = specials(rnd, 16)
-                ctx.hit("event:operands refilled in place")
-                if not np.array_equal(np.asarray(r1), keep, equal_nan=True):
-                    ctx.violation(f"{name}: a returned result changes when an operand array is later modified (aliases its operand)", {"norm": name}, keep, r1)
-            norm.compute(a, b)
+            with ctx.guarded():
+                name = names[i % len(names)]
+                norm = getattr(fl, name)()
+                a, b = np.array(specials(rnd, 16)), np.array(specials(rnd, 16))
+                for _ in range(4):
+                    r1 = norm.compute(a, b)
+                    keep = np.array(r1, copy=True)
+                    a[:] = specials(rnd, 16)
+                    if rnd.random() < 0.5:
+                        b[:] = specials(rnd, 16)
+                    ctx.hit("event:operands refilled in place")
+                    if not np.array_equal(np.asarray(r1), keep, equal_nan=True):
+                        ctx.violation(f"{name}: a returned result changes when an operand array is later modified (aliases its operand)", {"norm": name}, keep, r1)
+                norm.compute(a, b)
         mon.check_laws()
         probe.report(ctx)
         reach.report(ctx)
